@@ -600,8 +600,8 @@ struct Exec {
         g_sim_tag = SIM_TAG_REF;
         g_sim_in_free = 1; shim_free(e); g_sim_in_free = 0;
         g_sim_tag = SIM_TAG_NONE;
-        if (sim_ledger_live_for_tag(SIM_TAG_REF, nullptr, 0) != 0) {
-            viol("C13:eav_free-leaves-allocation", "fresh object: blocks still live after eav_free");
+        if (sim_ledger_unreachable_live(SIM_TAG_REF) != 0) {
+            viol("C13:eav_free-leaves-allocation", "fresh object: blocks still allocated after eav_free and not reachable from any library static");
             sim_ledger_retag(SIM_TAG_REF, 999);
         }
         if (sim_ctx_live_for_tag(SIM_TAG_REF) != 0) {
@@ -737,11 +737,11 @@ struct Exec {
             g_sim_tag = o; g_sim_in_free = 1; shim_free(store[o]); g_sim_in_free = 0; g_sim_tag = SIM_TAG_NONE;
             drain_reports();
             if (viols.empty()) {
-                if (sim_ledger_live_for_tag(o, nullptr, 0) != 0) viol("C13:eav_free-leaves-allocation", "blocks allocated for the object are still live after the closing eav_free");
+                if (sim_ledger_unreachable_live(o) != 0) viol("C13:eav_free-leaves-allocation", "blocks allocated for the object are still allocated after the closing eav_free and not reachable from any library static");
                 if (sim_ctx_live_for_tag(o) != 0) viol("C18:context-not-released-by-eav_free", "resolver context still live after the closing eav_free");
             }
         }
-        if (viols.empty() && sim_ledger_live_total() != 0) viol("C13:allocation-never-released", "library blocks still live at the end of the history");
+        if (viols.empty() && sim_ledger_unreachable_live(-2) != 0) viol("C13:allocation-never-released", "library blocks still allocated at the end of the history and not reachable from any library static");
         if (viols.empty() && g_sim_ctx.live != 0) viol("C18:context-never-released", "resolver contexts still live at the end of the history");
         ST.ctx_created += g_sim_ctx.created; ST.ctx_destroyed += g_sim_ctx.destroyed;
         ST.ctx_by_setup += g_sim_ctx.destroyed_by_setup; ST.ctx_by_free += g_sim_ctx.destroyed_by_free;
@@ -749,7 +749,10 @@ struct Exec {
         store.clear();
         for (char *b : abuf) free(b);
         abuf.clear();
-        rec("END allocs=" + std::to_string(sim_ledger_allocs()) + " frees=" + std::to_string(sim_ledger_frees()) + " ctx=" + std::to_string(g_sim_ctx.created) + "/" + std::to_string(g_sim_ctx.destroyed), "END");
+        // allocation counts are not part of the hashed record: a one-time allocation behind a library static (lazy index)
+        // happens in whichever plan runs first in the process
+        rec("END ctx=" + std::to_string(g_sim_ctx.created) + "/" + std::to_string(g_sim_ctx.destroyed), "END");
+        if (want_log) log.push_back("  (allocations by the library in this plan: " + std::to_string(sim_ledger_allocs()) + ", releases: " + std::to_string(sim_ledger_frees()) + ")");
     }
 
     void note_trans(const ObjModel &m, const Op &op) {
@@ -873,7 +876,8 @@ struct Exec {
             any_state_change = true;
             g_sim_tag = op.o; g_sim_in_free = 1; shim_free(e); g_sim_in_free = 0; g_sim_tag = SIM_TAG_NONE;
             drain_reports();
-            if (sim_ledger_live_for_tag(op.o, nullptr, 0) != 0) { viol("C13:eav_free-leaves-allocation", "blocks allocated for the object are still live after eav_free"); sim_ledger_retag(op.o, 999); }
+            if (sim_ledger_unreachable_live(op.o) != 0) { viol("C13:eav_free-leaves-allocation", "blocks allocated for the object are still allocated after eav_free and not reachable from any library static"); }
+            sim_ledger_retag(op.o, 999);
             if (sim_ctx_live_for_tag(op.o) != 0) { viol("C18:context-not-released-by-eav_free", "resolver context still live after eav_free"); sim_ctx_retag(op.o, 999); }
             sim_fill(e, esz);
             g_sim_tag = op.o; shim_init(e); g_sim_tag = SIM_TAG_NONE;
@@ -905,13 +909,14 @@ struct Exec {
             }
             // exactly the record (and its strings) may be live
             {
-                void *live[8]; int n = sim_ledger_live_for_tag(101, live, 8);
+                int n = sim_ledger_unreachable_live(101);
                 int want = r.present ? 1 + (r.has_extra ? (r.lpart ? 1 : 0) + (r.domain ? 1 : 0) : 0) : 0;
                 if (n != want) { snprintf(b, sizeof b, "is_6531_email left %d live blocks, result record accounts for %d", n, want); viol("C19:leak-on-conversion-path", b); sim_ledger_retag(101, 999); }
             }
             shim_result_free(rp);
             g_sim_tag = SIM_TAG_NONE;
-            if (sim_ledger_live_for_tag(101, nullptr, 0) != 0) { viol("C19:leak-on-conversion-path", "blocks live after eav_result_free"); sim_ledger_retag(101, 999); }
+            if (sim_ledger_unreachable_live(101) != 0) { viol("C19:leak-on-conversion-path", "blocks still allocated after eav_result_free"); }
+            sim_ledger_retag(101, 999);
         } break;
         case LOW_UTF8DOM: {
             if (m.confirmed != 3) { rec(pre + " skipped", pre + " skipped"); break; }
@@ -939,7 +944,8 @@ struct Exec {
                     if (it->second.rc != rc) { snprintf(b, sizeof b, "is_utf8_domain('%s') = %d but eav_is_email('a@%s') records rc %d", op.a.c_str(), rc, op.a.c_str(), it->second.rc); viol("C19:low-level-result-differs-from-eav_is_email", b); }
                 }
             }
-            if (sim_ledger_live_for_tag(101, nullptr, 0) != 0) { viol("C19:leak-on-conversion-path", "is_utf8_domain left a live block (converter output not released)"); sim_ledger_retag(101, 999); }
+            if (sim_ledger_unreachable_live(101) != 0) { viol("C19:leak-on-conversion-path", "is_utf8_domain left a live block (converter output not released)"); }
+            sim_ledger_retag(101, 999);
         } break;
         default: break;
         }
